@@ -34,9 +34,12 @@
 (*   hi / ones  - "far beyond everything" (2^31, 2^63 / 2^32-1, 2^64-1):    *)
 (*                Omega.  A COUNT of Omega never runs out.                  *)
 (* Records read at a position where the valid file has no record of that    *)
-(* kind read as all-zero (documented abstraction: what is there is other    *)
-(* content, not a second adversarial fault) - except dynamic tags, where a  *)
-(* misplaced read never is DT_NULL (the worst case for that scan).          *)
+(* kind read as all-zero (what is there is other content, not a second      *)
+(* adversarial fault) - except dynamic tags, where a misplaced read never   *)
+(* is DT_NULL, chain words, where it never has the end bit (the worst cases *)
+(* for those scans), and version records, where `gb` chooses between the    *)
+(* all-zero record and the worst one for a count-driven chain walk (count   *)
+(* far beyond everything, displacements 0).                                *)
 (*                                                                         *)
 (* No state constraint.  `steps` saturates at K*(n+1)+1 so that the state   *)
 (* space is finite even where the walk is not.                              *)
@@ -71,8 +74,9 @@ CONSTANTS Walkers,      \* subset of AllWalkers
 VARIABLES w,            \* walker name
           n,            \* file size in units
           flt,          \* set of faults [f, u, c]
+          gb,           \* what a version record reads as where the valid file has none: "zero" | "stall"
           st            \* machine state
-vars == <<w, n, flt, st>>
+vars == <<w, n, flt, gb, st>>
 
 AllWalkers == {"shdr", "phdr", "phdr0", "symcount", "dyn", "notes", "sysvhash", "gnuhash", "verchain"}
 Ns8 == 1..8
@@ -258,7 +262,8 @@ VerStep(s) ==
     [] s.pc = "entry" ->
          IF s.left = 0 THEN Halt(s, "done")
          ELSE IF s.pos + Hdr > n THEN Halt(s, "raise: eof")
-         ELSE Go([s EXCEPT !.pc = "aux", !.apos = Sat(Plus(s.pos, FieldAt("aux", s.pos, Grp, 0))), !.aleft = FieldAt("cnt", s.pos, Grp, 0)])
+         ELSE Go([s EXCEPT !.pc = "aux", !.apos = Sat(Plus(s.pos, FieldAt("aux", s.pos, Grp, 0))),
+                           !.aleft = FieldAt("cnt", s.pos, Grp, IF gb = "stall" THEN Omega ELSE 0)])
     [] s.pc = "aux" ->
          IF s.aleft = 0 THEN Go([s EXCEPT !.pc = "next"])
          ELSE IF s.apos + Ent > n THEN Halt(s, "raise: eof")
@@ -281,8 +286,9 @@ Step(s) == CASE w \in {"shdr", "phdr", "phdr0"} -> TableStep(s)
 
 Init == /\ w \in Walkers /\ n \in Ns
         /\ flt \in {F \in FaultSets(w, n) : Distinct(F)}
+        /\ gb \in (IF w = "verchain" THEN {"zero", "stall"} ELSE {"zero"})
         /\ st = S0
-Walk == ~st.halted /\ st' = Step(st) /\ UNCHANGED <<w, n, flt>>
+Walk == ~st.halted /\ st' = Step(st) /\ UNCHANGED <<w, n, flt, gb>>
 Next == Walk
 Spec == Init /\ [][Next]_vars /\ WF_vars(Next)
 
@@ -325,7 +331,7 @@ Which(x) == IF x.u = 0 THEN "" ELSE IF x.u = 1 THEN "first" ELSE "last"
 ConcreteClasses(c) == CASE c = "hi" -> <<"b31", "b63">> [] c = "ones" -> <<"m32", "m64">> [] OTHER -> <<c>>
 \* the kind of valid file the walker starts from, where it matters (a trait of the seed, see Faults!SeedLines)
 Needs == CASE w = "phdr0" -> "no phtable" [] w = "phdr" -> "phtable" [] w = "shdr" -> "shtable" [] OTHER -> ""
-Witness == [w |-> w, n |-> n, k |-> NRec(w, n), pc |-> st.pc, pos |-> st.pos, needs |-> Needs,
+Witness == [w |-> w, n |-> n, k |-> NRec(w, n), pc |-> st.pc, pos |-> st.pos, needs |-> Needs, gb |-> gb,
             faults |-> {[f |-> x.f, which |-> Which(x), c |-> x.c, classes |-> ConcreteClasses(x.c),
                          maps |-> {<<m[1], m[2]>> : m \in Maps(x.f)}] : x \in flt}]
 WitnessBound == (st.steps > K * (n + 1)) => CSVWrite("%1$s", <<ToJson(Witness)>>, IOEnv.OUT)
